@@ -11,6 +11,13 @@ for every member it knows how to call, runs a deterministic two-thread protocol 
    waiting for the terminal lock (``wait``);
 4. thread 1 leaves the probe (``release``); thread 2 must now touch the terminal and return.
 
+A second protocol checks that the member's terminal accesses form ONE critical section: the
+member is called with nobody holding the lock; every time the caller has *fully* released the
+terminal lock (``gap``), a third thread runs the synchronized reader ``utils.read_tty()`` to
+completion before the caller goes on.  A terminal access of the caller after such an intrusion
+means the member let go of the terminal in the middle (e.g. between a query and the read that
+drains the rest of its reply).
+
 Observation points (all module-level seams, no source hooks):
 * ``utils._tty_lock`` is wrapped by :class:`WatchedLock` (delegates to the real lock object;
   records ``wait`` when an acquire by a thread that does not own it finds it held);
@@ -35,7 +42,8 @@ class Recorder:
     def __init__(self):
         self.cv = threading.Condition()
         self.events: list[dict] = []
-        self.roles: dict[int, int] = {}  # thread ident -> 1 (holder) / 2 (caller)
+        self.roles: dict[int, int] = {}  # thread ident -> 1 (holder) / 2 (caller) / 3 (intruder)
+        self.on_gap = None  # called when the caller has fully released the terminal lock
 
     def add(self, kind, what=""):
         role = self.roles.get(threading.get_ident())
@@ -73,9 +81,12 @@ class WatchedLock:
 
     def release(self):
         self.count -= 1
-        if self.count == 0:
+        free = self.count == 0
+        if free:
             self.owner = None
         self.real.release()
+        if free and REC.on_gap is not None and REC.roles.get(threading.get_ident()) == 2:
+            REC.on_gap()
 
     __enter__ = acquire
 
@@ -241,6 +252,48 @@ def main():
         if th2.is_alive() or th1.is_alive():
             ev = [e for e in ev]  # no return event: Trace_TtySync says Progress
         result["members"][name] = {"ev": ev, "decided": decided, "errors": errors}
+
+        # second protocol - the member's terminal accesses are ONE critical section: whenever the
+        # caller has fully released the terminal lock during the call, another thread reads the
+        # terminal through the synchronized reader (to completion) before the caller continues
+        fresh()
+        with REC.cv:
+            REC.events = []
+            REC.roles = {}
+        aerrors: list = []
+
+        def intruder():
+            REC.roles[threading.get_ident()] = 3
+            try:
+                utils.read_tty()
+            except BaseException as e:
+                aerrors.append("intruder: " + repr(e))
+
+        def gap():
+            REC.add("gap")
+            th3 = threading.Thread(target=intruder, daemon=True)
+            th3.start()
+            th3.join(TIMEOUT)
+            if th3.is_alive():
+                aerrors.append("intruder did not finish")
+
+        def acaller():
+            REC.roles[threading.get_ident()] = 2
+            REC.add("call", name)
+            try:
+                call()
+            except BaseException as e:
+                aerrors.append(repr(e))
+            REC.add("return")
+
+        REC.on_gap = gap
+        th2 = threading.Thread(target=acaller, daemon=True)
+        th2.start()
+        th2.join(3 * TIMEOUT)
+        REC.on_gap = None
+        with REC.cv:
+            ev = list(REC.events)
+        result["members"][name]["atomic"] = {"ev": ev, "errors": aerrors, "finished": not th2.is_alive()}
     try:
         screen.stop()
     except Exception:
